@@ -14,4 +14,4 @@ VERIF_REPO="$wt" VERIF_OUT="$out" "$HERE/bin/check" "$id" --replay "$f" > "$out/
 VERIF_REPO="$wt" VERIF_OUT="$out" "$HERE/bin/check" "$id" --replay "$f" > "$out/r1b.log" 2>&1; a2=$?
 VERIF_OUT="$out" "$HERE/bin/check" "$id" --replay "$f" > "$out/r2.log" 2>&1; b=$?
 echo "$id replay on seeded tree: exit=$a (again: $a2)   on /repo: exit=$b"
-[ $a = 1 ] && [ $a2 = 1 ] && [ $b = 0 ] || { tail -5 "$out/r1.log" "$out/r2.log"; }
+[ $a = 1 ] && [ $a2 = 1 ] && [ $b = 0 ] || { tail -n 5 "$out/r1.log"; tail -n 5 "$out/r2.log"; }
